@@ -21,6 +21,8 @@ import LexVerif.Model.Ops.WriteFloat
 import LexVerif.Props.C09
 import LexVerif.Props.C14
 import LexVerif.Props.C17
+import LexVerif.Props.C08Decimal
+import LexVerif.Props.C08Parser
 -- float-writer digit generators and power-of-two writers (dbox)
 import LexVerif.Model.Dragonbox
 import LexVerif.Model.Grisu
